@@ -363,8 +363,26 @@ def run(rep, tier):
             res = rep.violation("witness:%s.%s" % (opn, name), "real build: %s.%s: %s" % (opn, name, why), cex, confirmed=True)
             rep.obligation("witness(%s.%s)" % (opn, name), "replayer", res, 0)
     else:
-        rep.obligation("witness validation: %d requests (one per header/query member) arrive in the typed input on the real build" % nw,
-                       "replayer", "holds", time.time() - t1, queries=nw)
+        rep.obligation("witness validation: %d requests (one per header/query member, list-valued headers as one comma-separated line) arrive in the "
+                       "typed input on the real build" % nw, "replayer", "holds", time.time() - t1, queries=nw)
+    # the same witnesses through the proxy configuration: client -> adapter -> s3s_aws::Proxy (aws-sdk-s3) -> second adapter -> backend
+    t1 = time.time()
+    try:
+        nwp, badp = C02replay.run_witnesses(rep, ops, proxy=True)
+    except Inconclusive as e:
+        nwp, badp = 0, None
+        rep.fail_inconclusive("proxy witnesses: %s" % e)
+    if badp is not None:
+        rep.traces_validated += nwp - len(badp)
+        if badp:
+            for opn, name, why, rq in badp[:10]:
+                cex = rep.save_cex("proxy_witness_%s_%s" % (opn, name), {"op": opn, "member": name, "why": why, "request": rq, "config": {"proxy": True}})
+                res = rep.violation("proxy-witness:%s.%s" % (opn, name), "real build, proxy chain: %s.%s: %s" % (opn, name, why), cex, confirmed=True)
+                rep.obligation("proxy witness(%s.%s)" % (opn, name), "replayer", res, 0)
+        else:
+            rep.obligation("proxy configuration: the same %d witness requests sent through adapter -> s3s_aws::Proxy (aws-sdk-s3 client) -> second adapter "
+                           "arrive in the typed input of the second adapter's backend with the same values" % nwp, "replayer(not solver-decided)",
+                           "holds", time.time() - t1, queries=nwp)
     for d in prof.CATALOGUE_DOC:
         rep.assume("catalogue: " + d)
     rep.assume("header constant re-exports of hyper::header follow the http crate's naming (CONTENT_TYPE = \"content-type\")")
@@ -372,7 +390,8 @@ def run(rep, tier):
     import C13
     C13.byte_level(rep, meaning=False)
     kspec.run_spec(rep, "C02", tier, budget_s=200)
-    rep.out("the s3s-aws proxy/conversion path (aws-sdk types, no independent oracle in the sandbox); XML payload content (C13); "
+    rep.out("the s3s-aws proxy/conversion path is covered by the proxy witnesses only (one value per header/query member; XML payloads and "
+            "bodies through the proxy are not); XML payload content (C13); "
             "aws-chunked/multipart body transformation (C08-C10); value-level parsing beyond the Kani leaf bounds")
 
 
